@@ -304,6 +304,28 @@ def run(ctx, build):
 
     # ---- every transfer on its OWN server port: many live sub-servers, real sockets ------------
     own_ports(ctx)
+    # ---- two transfer threads each handling a packet at the same time (two handler objects alive at once, every
+    #      interleaving of their setup / handle / finish phases): each client gets the next block of ITS file
+    from tftpdrv import Sim
+    fa, fb = bytes(range(256)) * 5, bytes(reversed(range(256))) * 5
+    for order in ('shSHFf', 'sShHfF', 'sShHFf', 'SshHfF', 'SsHhFf', 'sSHhfF', 'shSHfF', 'SHshFf', 'sShfHF'):
+        sim = Sim({'a.bin': fa, 'b.bin': fb})
+        try:
+            s1, _ = sim.packet(0, 1, b'\0\1a.bin\0octet\0', 1000)
+            s2, _ = sim.packet(0, 2, b'\0\1b.bin\0octet\0', 1001)
+            if len(s1) != 1 or len(s2) != 1:
+                break
+            t1, t2 = s1[0][0], s2[0][0]
+            out = sim.overlapped((t1, 1, b'\0\4\0\1'), (t2, 2, b'\0\4\0\1'), order, 1002)
+            ctx.case(('overlapped-handlers', order), True, 'overlapped-handlers')
+            got1 = [b for t, b, a in out if t == t1]
+            got2 = [b for t, b, a in out if t == t2]
+            if got1 != [b'\0\3\0\2' + fa[512:1024]] or got2 != [b'\0\3\0\2' + fb[512:1024]]:
+                ctx.violation('tftpd.concurrent/handlers-share-state', f'two transfer threads handling an ACK each at the same time (phases {order}): client 1 was sent '
+                              f'{[x[:8].hex() for x in got1]}, client 2 {[x[:8].hex() for x in got2]}; expected DATA block 2 of a.bin / b.bin', dict(order=order))
+                break
+        finally:
+            sim.restore()
 
     # ---- real threads, real UDP ---------------------------------------------------------------
     runs = 8 if ctx.thorough else 1
